@@ -753,10 +753,33 @@ func (r *c16Runner) run(l *c16Layout) (digest string) {
 	rep.Progress("phase %d case %d class %s", l.phase, l.index, l.class)
 	p, stack := verifutil.Catch(func() { digest = r.runInner(l) })
 	if p != nil {
-		r.violation(l, "panic:"+verifutil.TopRepoFrame(stack), "", fmt.Sprintf("panic while evaluating the lottery: %v\n%s", p, verifutil.Trunc(stack, 3000)))
+		r.violation(l, "panic:"+c16TopFrame(stack), "", fmt.Sprintf("panic while evaluating the lottery: %v\n%s", p, verifutil.Trunc(stack, 3000)))
 	}
 	rep.Eval(1)
 	return digest
+}
+
+// c16TopFrame: top frame of the code under test (also when the tree is compiled from a scratch
+// worktree, where file paths do not start with /repo).
+func c16TopFrame(stack string) string {
+	if f := verifutil.TopRepoFrame(stack); f != "?" {
+		return f
+	}
+	lines := strings.Split(stack, "\n")
+	for i := 0; i+1 < len(lines); i++ {
+		fn, loc := lines[i], lines[i+1]
+		if !strings.HasPrefix(loc, "\t") || !strings.Contains(fn, "idena-network/idena-go/") {
+			continue
+		}
+		if strings.Contains(loc, "zz_verif") || strings.Contains(loc, "/verifutil/") || strings.Contains(fn, "c16") {
+			continue
+		}
+		if k := strings.LastIndex(fn, "("); k > 0 {
+			fn = fn[:k]
+		}
+		return fn
+	}
+	return "?"
 }
 
 func (r *c16Runner) runInner(l *c16Layout) string {
@@ -918,6 +941,9 @@ func (r *c16Runner) check(l *c16Layout, w *c16World, vc *ValidationCeremony, o *
 		}
 		if len(t.authors) > 7 {
 			rep.Count("path_topup_over7_authors", 1)
+		}
+		if len(t.authors) >= c16Quota && t.nFlips == len(t.authors) {
+			rep.Count("path_one_flip_each_quota_or_more_authors", 1) // where long lists can come out empty
 		}
 		if sl := vc.shardLotteries[common.ShardId(s)]; sl != nil { // coverage only, never a verdict
 			for c, as := range sl.authorsPerCandidate {
@@ -1094,7 +1120,13 @@ func (r *c16Runner) check(l *c16Layout, w *c16World, vc *ValidationCeremony, o *
 				rep.Count("cov_author_without_recipients", 1)
 				continue
 			}
-			for c := range recSet[a] {
+			done := map[int]bool{}
+			for _, pk := range o.recip[a] {
+				c, known := byPub[string(pk)]
+				if !known || done[c] {
+					continue
+				}
+				done[c] = true
 				cd := l.idents[c]
 				ok := false
 				if assigned[c] != nil {
@@ -1286,7 +1318,12 @@ func (r *c16Runner) checkKeys(l *c16Layout, w *c16World, vc *ValidationCeremony,
 		}
 	}
 	// a non-recipient cannot decrypt any entry
+	var pubs []int
 	for a := range published {
+		pubs = append(pubs, a)
+	}
+	sort.Ints(pubs)
+	for _, a := range pubs {
 		au := l.idents[a]
 		n := len(o.recip[a])
 		idxs := rng.Perm(n)
@@ -1358,9 +1395,8 @@ func TestVerifC16Lottery(t *testing.T) {
 	lap("canonical")
 	// ---- exhaustive small layouts
 	cases := c16ExhCases()
-	stride := verifutil.Scale(1, 1)
 	for k, c := range cases {
-		if k%nsh != shard || (k/nsh)%stride != 0 {
+		if k%nsh != shard {
 			continue
 		}
 		l := c16GenExh(c, k)
@@ -1372,7 +1408,7 @@ func TestVerifC16Lottery(t *testing.T) {
 
 	lap("exhaustive")
 	// ---- random layouts
-	n := verifutil.Scale(4000, 60000) / nsh
+	n := verifutil.Scale(4000, 120000) / nsh
 	for i := 0; i < n; i++ {
 		l := c16GenRandom(verifutil.Stream(16, c16PhaseRandom, uint64(i)), false)
 		l.phase, l.index = c16PhaseRandom, i
@@ -1381,7 +1417,7 @@ func TestVerifC16Lottery(t *testing.T) {
 	}
 	lap("random")
 	// ---- real keys
-	n = verifutil.Scale(320, 4000) / nsh
+	n = verifutil.Scale(320, 2400) / nsh
 	for i := 0; i < n; i++ {
 		l := c16GenRandom(verifutil.Stream(16, c16PhaseReal, uint64(i)), true)
 		l.phase, l.index = c16PhaseReal, i
